@@ -262,6 +262,10 @@ def number_pool(tier):
         add(str(i))
         if i:
             add(str(-i))
+    # whole numbers beyond 2^53 (exact as integers, not as doubles): ids, counters, products
+    for big in (2 ** 53 + 1, 10 ** 17 + 1, 10 ** 17 + 3, 2 ** 60 + 1, 123456789012345678):
+        add(str(big))
+        add(str(-big))
     # exact multiples of the units reached by negative digits, and their neighbours (300000 * 10**-5 is not 3)
     for j in range(2, 8):
         for m in range(1, 10):
